@@ -62,10 +62,11 @@ fn main() {
         }
         i += 1;
     }
-    let Some(subs) = subs_of(cmd) else {
+    let Some(mut subs) = subs_of(cmd) else {
         eprintln!("unknown property {}", cmd);
         std::process::exit(2);
     };
+    subs.extend(fuzzing::subs_for(cmd));
     let ctx = Ctx::new(cmd, &tier);
     // watchdog: a budget hit is inconclusive (exit 2), never a violation
     let limit = std::env::var("VERIF_WATCHDOG_S")
